@@ -38,7 +38,7 @@ def gen_case(rng, tier, i):
                       "EventBasedTally+resub", "EventBasedCounter+resub"])
     entry = rng.choice(["register", "notify"]) if cls.startswith("EventBased") else "register"
     n = rng.choice([0, 1, 2, 3, 4, 5, 5, 10, 10, 50, 50, 300] + ([3000] if rng.random() < 0.08 else [12]))
-    klass = rng.choice(["int", "mixed", "offset", "equal", "two", "near"])
+    klass = rng.choice(["int", "mixed", "offset", "equal", "two", "near", "huge"])
     if cls.startswith("Counter") or cls.startswith("EventBasedCounter"):
         vals = [rng.randint(-1000, 1000) for _ in range(n)]
     elif klass == "int":
@@ -49,6 +49,10 @@ def gen_case(rng, tier, i):
         off = 10 ** rng.uniform(3, 12)
         sp = 10 ** rng.uniform(-3, 2)
         vals = [off + rng.uniform(-sp, sp) for _ in range(n)]
+    elif klass == "huge":
+        # finite values far apart: third and fourth powers of the differences leave the float range (only totality and the
+        # first-order statistics are judged there)
+        vals = [rng.choice([1.0, 2.5, -4.0, 3.5e90, -1e120, 1e150, 7e76, 2e77]) for _ in range(n)]
     elif klass == "equal":
         v = rng.choice([0.0, 1.0, 5, -3.25, 1e9, 0.1, 1e-6, 7.0])
         vals = [v] * n
@@ -259,13 +263,15 @@ def run_case(case, ctx):
                 ctx.viol("counter-value", {**where, "got": got, "want": {"n": cn, "count": csum}})
                 return
             continue
-        want = ex.expected(ALPHAS)
+        want = ex.expected(ALPHAS) if case.get("klass") != "huge" else ex.expected_first_order(ALPHAS)
         if ex.n >= 2 and ex.central()[1] == 0:
             zero_var_seen = True
             ctx.count("zero_variance_states")
         for name, (w, tol) in want.items():
             if name not in got:
                 continue
+            if case.get("klass") == "huge" and name not in ("n", "min", "max", "sum", "mean"):
+                tol = "any"         # beyond the float range of the higher moments: the query must answer (a value, inf or NaN), no more
             g = got[name]
             if isinstance(g, tuple) and g and g[0] == "raised":
                 return
